@@ -528,6 +528,64 @@ fn gen_missing(rng: &mut Rng, g: &QGen, nodes: &[Node]) -> Option<String> {
     Some(q)
 }
 
+/// Family 6: a QUANTIFIED ALTERNATION as child pattern: `[A B]?`, `[A B]*`, `[A B]+`, captured or not,
+/// single-step and multi-step branches in either order; the branch that actually matches a child of
+/// the parent is as often the last as the first one.
+fn gen_quant_alt(rng: &mut Rng, g: &QGen, named: &[&Node]) -> Option<String> {
+    let parents: Vec<&&Node> = named.iter().filter(|n| n.named_child_count() >= 1 && !n.is_error()).collect();
+    if parents.is_empty() {
+        return None;
+    }
+    let p = **rng.pick(&parents);
+    let mut cur = p.walk();
+    let kids: Vec<Node> = p.children(&mut cur).filter(|k| !k.is_error() && !k.is_missing()).collect();
+    if kids.is_empty() {
+        return None;
+    }
+    let k = *rng.pick(&kids);
+    let simple = |n: &Node| if n.is_named() { format!("({})", n.kind()) } else { quote(n.kind()) };
+    // the branch for the real child: single step, or with one child pattern
+    let real = if k.named_child_count() > 0 && rng.chance(1, 3) {
+        let mut c2 = k.walk();
+        let gk: Vec<Node> = k.named_children(&mut c2).filter(|x| !x.is_error() && !x.is_missing()).collect();
+        if gk.is_empty() { simple(&k) } else { format!("({} ({}))", k.kind(), rng.pick(&gk).kind()) }
+    } else {
+        simple(&k)
+    };
+    // the other branch: another child's kind, a random kind, or a multi-step pattern
+    let other = match rng.below(4) {
+        0 => simple(rng.pick(&kids)),
+        1 if !g.anon_kinds.is_empty() => quote(rng.pick(&g.anon_kinds).as_str()),
+        2 if !g.named_kinds.is_empty() => format!("({} (_))", rng.pick(&g.named_kinds)),
+        _ => if g.named_kinds.is_empty() { "(_)".to_string() } else { format!("({})", rng.pick(&g.named_kinds)) },
+    };
+    let bcap = |rng: &mut Rng| if rng.chance(1, 4) { g.capture(rng) } else { String::new() };
+    let (b1, b2) = if rng.chance(1, 2) { (real, other) } else { (other, real) };
+    let c1 = bcap(rng);
+    let c2 = bcap(rng);
+    let q = *rng.pick(&["?", "?", "*", "+"]);
+    let cap = if rng.chance(3, 4) { g.capture(rng) } else { String::new() };
+    let mut s = format!("({}", p.kind());
+    if rng.chance(1, 4) {
+        if let Some(first) = kids.first() {
+            if first.id() != k.id() {
+                s.push_str(&format!(" {}", simple(first)));
+            }
+        }
+    }
+    s.push_str(&format!(" [{b1}{c1} {b2}{c2}]{q}{cap}"));
+    if rng.chance(1, 4) {
+        if let Some(last) = kids.last() {
+            if last.id() != k.id() {
+                s.push_str(&format!(" {}", simple(last)));
+            }
+        }
+    }
+    s.push(')');
+    let pc = if rng.chance(1, 2) { g.capture(rng) } else { String::new() };
+    Some(format!("{s}{pc}\n"))
+}
+
 fn gen_query(rng: &mut Rng, g: &mut QGen, tree: &Tree) -> Option<String> {
     let nodes = all_nodes(tree);
     let named: Vec<&Node> = nodes.iter().filter(|n| n.is_named() && !n.is_missing()).collect();
@@ -574,6 +632,11 @@ fn gen_query(rng: &mut Rng, g: &mut QGen, tree: &Tree) -> Option<String> {
         }
         7 => {
             if let Some(q) = gen_missing(rng, g, &nodes) {
+                return Some(q);
+            }
+        }
+        8 => {
+            if let Some(q) = gen_quant_alt(rng, g, &named) {
                 return Some(q);
             }
         }
